@@ -6,6 +6,7 @@ package olareg
 // (C01–C04, C07, C14).
 
 import (
+	"github.com/olareg/olareg/internal/simrt"
 	"bytes"
 	"encoding/json"
 	"fmt"
@@ -1031,7 +1032,31 @@ func (w *World) opRefs(op Op) {
 			w.x.out.probe("referrers-page-past-the-end")
 		}
 	}()
+	churned, victim := false, ""
 	for has && pages < 200 {
+		if op.Mode == "churn" && !churned && len(descs) > 0 && w.k.deleteOn() && !w.k.readOnly() {
+			// between two pages of the chain an artifact of the first page is deleted and the cached pages are lost (they
+			// expire, or the registry restarts): what is there all the time still has to come along the chain
+			for oi, o := range w.x.p.Objs {
+				if (o.Kind == "image" || o.Kind == "index") && (o.digest("sha256") == descs[0].Digest || o.digest("sha512") == descs[0].Digest) {
+					victim = descs[0].Digest
+					w.opDelete(Op{K: "del", Mode: "man", Repo: op.Repo, Obj: oi, Algo: algoOf(victim)})
+					break
+				}
+			}
+			churned = true
+			if victim != "" {
+				if ms := w.k.PageCacheMs; ms > 0 && ms <= 5000 {
+					simrt.Sleep(time.Duration(ms+1) * time.Millisecond)
+				} else if w.k.Store == "dir" {
+					w.opRestart()
+				}
+				w.x.out.probe("referrers-churn-between-pages")
+			}
+			if w.x.stop {
+				return
+			}
+		}
 		u, err := url.Parse(link)
 		if err != nil {
 			w.x.viol([]string{"C07"}, "referrers.chain", "unparsable Link", link)
@@ -1063,7 +1088,7 @@ func (w *World) opRefs(op Op) {
 	must, may := mr.referrers(subj)
 	got := map[string]descJSON{}
 	for _, d := range all {
-		if _, dup := got[d.Digest]; dup {
+		if _, dup := got[d.Digest]; dup && !churned {
 			w.x.viol([]string{"C07"}, "referrers.set", "duplicate entry", fmt.Sprintf("referrers of %s list %s twice", subj, d.Digest))
 		}
 		got[d.Digest] = d
@@ -1108,6 +1133,9 @@ func (w *World) opRefs(op Op) {
 	}
 	for d, g := range got {
 		x, present := mr.mans[d]
+		if churned && d == victim {
+			continue // listed on the first page, deleted afterwards
+		}
 		if !present && mr.staleRef[subj][d] {
 			w.x.viol([]string{"C07"}, "referrers.set", "extra entry [artifact deleted after its blob]", fmt.Sprintf("referrers of %s list %s, a manifest that was deleted after its blob had been removed through the blob endpoint", subj, d))
 			w.x.resync()
